@@ -22,8 +22,8 @@
    while the valve is fine (it must not be *raised* then).  Time is counted in ticks.          *)
 EXTENDS Integers, TLC
 
-VARIABLES mt,        \* moving time in ticks            (fixed during a behaviour)
-          safe,      \* configured safe state           (fixed during a behaviour)
+VARIABLES mt,        \* configured moving time in ticks   (the environment may reconfigure it)
+          safe,      \* configured safe state             (the environment may reconfigure it)
           target,    \* requested position, TRUE = open
           coil,      \* commanded output
           error,     \* error flag
@@ -49,6 +49,12 @@ Switches(o, c) == /\ open' = o /\ closed' = c /\ fresh' = FALSE
                   /\ UNCHANGED <<mt, safe, target, coil, error, clock, lastGood>>
 Advance(dt) == /\ dt > 0 /\ clock' = clock + dt /\ fresh' = FALSE
                /\ UNCHANGED <<mt, safe, target, coil, error, open, closed, lastGood>>
+(* the configuration is the environment's too: what an update has to honour is the moving time
+   and the safe state configured when it runs, not those of some earlier moment *)
+SetMovingTime(m) == /\ m >= 0 /\ mt' = m /\ fresh' = FALSE
+                    /\ UNCHANGED <<safe, target, coil, error, open, closed, clock, lastGood>>
+SetSafeState(s) == /\ safe' = s /\ fresh' = FALSE
+                   /\ UNCHANGED <<mt, target, coil, error, open, closed, clock, lastGood>>
 
 ----------------------------------------------------------------------------
 (* the position the coil commands is the one the switches show (safe state closed) *)
